@@ -290,6 +290,11 @@ class FormulaTransformer(m.MatcherDecoratableTransformer):
         self, original_node: "Name", updated_node: "Name"
     ) -> "BaseExpression":
 
+        parent = self.get_metadata(ParentNodeProvider, original_node, None)
+        if isinstance(parent, cst.Arg) and parent.keyword is original_node:
+            # The keyword of a call argument is not a name to resolve
+            return updated_node
+
         if original_node == self.topfunc_name:
             return updated_node
         elif self.attr_stack and self.attr_stack[-1] == original_node:
